@@ -190,6 +190,22 @@ PROPS["C19"] = dict(
     assumptions=["fringe pops a maximal element (C11)"], rule=SEQ_RULE, trivial_tags=SEQ_TRIVIAL + ["many_polls"],
 )
 
+PROPS["C20"] = dict(
+    modules=["DdoModel.Props.C20"],
+    theorems=["Ddo.C20.render_none_iff", "Ddo.C20.render_total", "Ddo.C20.terminal_iff_last_layer_nonempty", "Ddo.C20.terminal_decl_count",
+              "Ddo.C20.nodes_once", "Ddo.C20.nodes_once_wf", "Ddo.C20.edges_faithful", "Ddo.C20.edges_sound", "Ddo.C20.edges_endpoints",
+              "Ddo.C20.edges_count", "Ddo.C20.edges_hidden", "Ddo.C20.terminal_edges", "Ddo.C20.terminal_edges_bold", "Ddo.C20.skeleton",
+              "Ddo.C20.clusters_kind0", "Ddo.C20.clusters_kind1", "Ddo.C20.edge_text", "Ddo.C20.renderLines_eq_some"],
+    stated_not_proved=["Ddo.C20.TerminalTextLevel (clause (b) read on the bytes of the text rather than on the list of emitted units): needs a hypothesis on the Debug text of states - a state whose Debug text contains a tab followed by 'terminal [shape=' is a counter-example to the byte-level reading; the DOT reader of the driver evaluates the clause on the parsed graph of every produced string instead"],
+    level_text="as_graphviz of both diagram kinds (clean.rs, pooled.rs) is modelled as a function from the diagram's content (nodes with flags / values / Debug text, inbound edge lists, best edge, layer list: the dump of hook H2) and the VizConfig to the list of emitted units and their bytes. Proved for every dump and configuration: exactly when the rendering panics (never on a well-formed dump with at least one layer); the terminal node is declared (once) iff the last layer is non-empty; every non-hidden node is declared exactly once under its index and no hidden node is; the drawn edges are exactly, with multiplicity, the inbound edges of the non-hidden nodes, with the recorded endpoints, variable, value and cost, bold iff it is the node's best edge; the terminal edges are exactly the nodes of the last layer, bold iff of maximal value; header first, footer last; cluster contents. The model is tied to the code by byte equality of the whole DOT text on every explored diagram x configuration (all 64 configurations cycled), and the property's clauses are also evaluated on the implementation's own string through an independent DOT reader.",
+    level_note="'Last layer' is read literally as the last entry of the diagram's layer list (see DESIGN.md 11.3, D6 withdrawn). The dump (hook H2) is trusted to report the node / edge / layer vectors the renderer reads; it is a read-only Display of the same fields. Viz.lean, Engines/Viz.lean and Props/C20.lean were produced by a delegated session and are checked by the same lake build / axiom audit.",
+    engines=[dict(name="viz")],
+    trusted_base=TB_COMMON + ["hook H2 (verif_dump, guarded by feature xgillard_ddo_verif) reports the diagram's nodes, edge lists, best edges and layers as the renderer sees them", "Debug formatting of the state type (i64) is what the dump carries"],
+    assumptions=["well-formed dump (ids = indices, edges point to existing nodes, layers mention existing nodes): checked on every case (wfDump)"],
+    rule="random TableDP / Knapsack instances (incl. long-arc ones for the pooled diagram, infeasible ones, all-pruned last layers), random compilation requests (3 kinds x 3 types, widths 1..4, random lower bound, cache / dominance), the 64 VizConfig combinations cycled; non-trivial = diagram with a value (tags other than 'infeasible'); distinct = distinct (dump, config)",
+    trivial_tags=["infeasible"],
+)
+
 PROPS["C15"] = dict(
     modules=["DdoModel.Props.C15"],
     theorems=["Ddo.C15.unimpacted_stays_in_pool", "Ddo.C15.layer_only_impacted", "Ddo.C15.branchOn_keeps", "Ddo.C15.expandFold_keeps",
